@@ -336,3 +336,140 @@ func sortedKeys(m map[string]bool) []string {
 	sort.Strings(ks)
 	return ks
 }
+
+// ---- conditionally declared identifiers (C01) ----
+
+var declRxs = []*regexp.Regexp{
+	regexp.MustCompile(`(?m)^\s*(?:var )?([A-Za-z_]\w*)(?:, ([A-Za-z_]\w*))?(?:, ([A-Za-z_]\w*))? :?= `),
+	regexp.MustCompile(`(?m)^\s*var ([A-Za-z_]\w*) `),
+}
+
+// checkConditionalDecls: inside one generated function, an identifier whose declarations all
+// sit under template conditions may only be used under conditions that imply one of them
+// (small-model evaluation over the atoms of the guards involved).
+func checkConditionalDecls(c *Ctx, rule string, ev *tmpl.Evaluator, trees []string) {
+	n := 0
+	for _, tn := range trees {
+		l := linearOf(c, ev, tn)
+		if l == nil {
+			c.Anchor(rule, "template "+tn, "not found")
+			continue
+		}
+		// function segments of the generated file
+		bounds := []int{0}
+		for _, m := range regexp.MustCompile(`\nfunc `).FindAllStringIndex(l.Text, -1) {
+			bounds = append(bounds, m[0])
+		}
+		bounds = append(bounds, len(l.Text))
+		for si := 0; si+1 < len(bounds); si++ {
+			lo, hi := bounds[si], bounds[si+1]
+			seg := l.Text[lo:hi]
+			type occ struct {
+				off   int
+				cond  *tmpl.Cond
+				scope string // the range/with nesting: conditions only compare within one dot
+			}
+			scopeOf := func(gs []tmpl.Guard) string {
+				var sc []string
+				for _, g := range gs {
+					if g.Kind == "range" || g.Kind == "with" || g.Kind == "else-with" {
+						sc = append(sc, g.Kind+" "+g.Pipe)
+					}
+				}
+				return strings.Join(sc, " › ")
+			}
+			decls := map[string][]occ{}
+			for _, rx := range declRxs {
+				for _, m := range rx.FindAllStringSubmatchIndex(seg, -1) {
+					for g := 1; g*2+1 < len(m); g++ {
+						if m[g*2] < 0 {
+							continue
+						}
+						name := seg[m[g*2]:m[g*2+1]]
+						if name == "_" || name == "err" {
+							continue
+						}
+						gs := l.GuardsAt(lo + m[g*2])
+						decls[name] = append(decls[name], occ{lo + m[g*2], tmpl.StackCond(gs), scopeOf(gs)})
+					}
+				}
+			}
+			for name, ds := range decls {
+				// only identifiers that are never declared unconditionally
+				uncond := false
+				atoms := map[string]bool{}
+				for _, d := range ds {
+					if len(d.cond.Args) == 0 {
+						uncond = true
+					}
+					d.cond.Atoms(atoms)
+				}
+				if uncond {
+					continue
+				}
+				useRx := regexp.MustCompile(`(^|[^\w.])` + regexp.QuoteMeta(name) + `\b`)
+				for _, m := range useRx.FindAllStringIndex(seg, -1) {
+					off := lo + m[1] - len(name)
+					isDecl := false
+					for _, d := range ds {
+						if d.off == off {
+							isDecl = true
+						}
+					}
+					if isDecl || off < ds[0].off {
+						continue
+					}
+					// skip occurrences inside comments and string literals of the generated code
+					lineStart := strings.LastIndexByte(l.Text[:off], '\n') + 1
+					prefix := l.Text[lineStart:off]
+					if strings.Contains(prefix, "//") || strings.Count(prefix, `"`)%2 == 1 || strings.Count(prefix, "`")%2 == 1 {
+						continue
+					}
+					if scopeOf(l.GuardsAt(off)) != ds[0].scope {
+						continue // another dot: the relation between the flags is established in Go, not here
+					}
+					uc := tmpl.StackCond(l.GuardsAt(off))
+					ua := map[string]bool{}
+					for a := range atoms {
+						ua[a] = true
+					}
+					uc.Atoms(ua)
+					keys := sortedKeys(ua)
+					if len(keys) > 14 {
+						continue
+					}
+					bad := ""
+					for mask := 0; mask < 1<<len(keys) && bad == ""; mask++ {
+						env := map[string]bool{}
+						for i, k := range keys {
+							env[k] = mask&(1<<i) != 0
+						}
+						if !uc.Eval(env) {
+							continue
+						}
+						declared := false
+						for _, d := range ds {
+							// a declaration counts for the uses that follow it in the generated text
+							declared = declared || (d.off < off && d.cond.Eval(env))
+						}
+						if !declared {
+							var on []string
+							for _, k := range keys {
+								if env[k] {
+									on = append(on, k)
+								}
+							}
+							bad = strings.Join(on, ", ")
+						}
+					}
+					n++
+					c.Check(bad == "", rule, fmt.Sprintf("%s › %s › use of conditionally declared `%s` #%d", l.Tree.Asset, tn, name, n), l.Tree.PosStr(l.PosAt(off)), "use implies a declaration",
+						fmt.Sprintf("`%s` is declared only under template conditions, and with {%s} true it is used without any of its declarations being emitted: the generated file does not compile (undefined: %s)", name, bad, name))
+				}
+			}
+		}
+	}
+	if n == 0 {
+		c.Unk(rule, "conditionally declared identifiers", "", "no use of a conditionally declared identifier was found in "+strings.Join(trees, ", ")+" (anchor)")
+	}
+}
